@@ -1,4 +1,5 @@
-// vh_reg: controlled schedules on the real client registry + adapter transport (C01, C06, C13).
+// vh_reg: controlled schedules on the real client registry + adapter transport (C01, C06, C13);
+// with "transport":"nats" in the request the same on the NATS transport (nats.go).
 //
 // One request = one schedule. The harness parks goroutines at the verif yield points and at the
 // scripted underlying transport, and performs a seeded random walk over the events the
@@ -45,6 +46,11 @@ type req struct {
 	Steps      int    `json:"steps"`
 	TimeoutsMs []int  `json:"timeouts_ms"`
 	Profile    string `json:"profile"`
+	Transport  string `json:"transport"` // "" / "adapter" | "nats" (nats.go)
+	Sizes      []int  `json:"sizes"`     // NATS: len(data) per caller
+	Share      []int  `json:"share"`     // NATS: caller reuses the FContext of an earlier caller
+	BadOp      []int  `json:"badop"`     // NATS: 1 = the caller's FContext gets a malformed _opid header
+	Reserve    int    `json:"reserve"`   // NATS: the last k callers are started only once the transport is closed
 }
 
 type resp struct {
@@ -56,6 +62,10 @@ type resp struct {
 	Fresh    int      `json:"fresh"`      // 1 = the fresh request after the schedule got its own response within 1 s
 	Panic    string   `json:"panic,omitempty"`
 	Leftover int      `json:"leftover"`
+	// NATS mode
+	DataKinds    []int  `json:"datakinds,omitempty"`
+	Unexpected   string `json:"unexpected,omitempty"`    // something the harness saw that no schedule allows
+	ServerStatus int    `json:"server_status,omitempty"` // 503 messages the SERVER sent (no responders)
 }
 
 // ---- scripted underlying transport -------------------------------------------------------------
@@ -232,6 +242,9 @@ func tagOf(tr thrift.TTransport) int {
 }
 
 func run(q req) resp {
+	if q.Transport == "nats" {
+		return runNats(q)
+	}
 	rng := rand.New(rand.NewSource(q.Seed))
 	var r resp
 	under := newStt()
